@@ -413,6 +413,8 @@ def special(value):
         return Handle()
     if isinstance(value, str) and value == '@NOCOPY':
         return NoCopy()
+    if isinstance(value, str) and value == '@EXCOBJ':
+        return ProgError('an exception object handed over as a value')
     if isinstance(value, str) and value == '@T12':
         return (1, 2)  # a single value that happens to be a tuple
     if isinstance(value, str) and value == '@T0':
